@@ -5,7 +5,7 @@ G: TLC enumerates spec/darklua/Trivia.tla: template programs covering every toke
 R: dlv text runs every rendered source through darklua_core::process with an empty rule list and retain_lines,
    plus the repository's own Lua corpus.
 V: TLC (TextTrace, kind `identity`) judges out = in byte for byte."""
-import glob, json, os, random
+import glob, json, os, random, re
 import vlib
 from vlib import Report
 from text_common import trivia_cases, run_and_judge, text_of, only_bracket_spaces, rejudge_without_ellipsis_trivia
@@ -51,7 +51,8 @@ def judge_all(rep, cases, label):
             continue                 # inputs with type syntax: only the weaker clause is claimed; not judged here
         k = next((n for n in range(min(len(src), len(out))) if src[n] != out[n]), min(len(src), len(out)))
         sig = {"kind": "identity", "status": o["status"][:80],
-               "cause": "space-between-close-brackets" if o["status"] == "ok" and only_bracket_spaces(src, out)
+               "cause": "method-type-instantiation-dropped" if o["status"] == "ok" and out == re.sub(r"(:\s*\w+)\s*<<.*?>>", r"\1", src) and out != src
+                        else "space-between-close-brackets" if o["status"] == "ok" and only_bracket_spaces(src, out)
                         else "trivia-after-type-pack-ellipsis" if cid in ellipsis else "other",
                "first_difference_at": k, "src_excerpt": src[max(0, k - 30):k + 30], "out_excerpt": out[max(0, k - 30):k + 30]}
         rep.violation(sig, {k2: o[k2] for k2 in o if k2 not in ("srcb", "outb")} | {"src": src})
